@@ -318,6 +318,27 @@ func (c *plOuter) Define(api frontend.API) error {
 	return v.AssertProof(c.VerifyingKey, c.Proof, c.InnerWitness, stdplonk.WithCompleteArithmetic())
 }
 
+// PLONK key switching: base key + per-circuit keys, a selector, one proof
+type plSwitch struct {
+	Proof        stdplonk.Proof[sfr377, g1t, g2t]
+	Base         stdplonk.BaseVerifyingKey[sfr377, g1t, g2t]
+	Keys         []stdplonk.CircuitVerifyingKey[sfr377, g1t]
+	Sel          frontend.Variable
+	InnerWitness stdplonk.Witness[sfr377]
+}
+
+func (c *plSwitch) Define(api frontend.API) error {
+	v, err := stdplonk.NewVerifier[sfr377, g1t, g2t, gtt](api)
+	if err != nil {
+		return err
+	}
+	vk, err := v.SwitchVerificationKey(c.Base, c.Sel, c.Keys)
+	if err != nil {
+		return err
+	}
+	return v.AssertProof(vk, c.Proof, c.InnerWitness, stdplonk.WithCompleteArithmetic())
+}
+
 type c17Desc struct {
 	Scheme  string `json:"scheme"`
 	Inner   string `json:"inner"`
@@ -572,6 +593,31 @@ func runC17(args []string) int {
 				p8 := clone()
 				p8.Bsb22Commitments[0].Add(&p8.Bsb22Commitments[0], &g1gen)
 				ts = append(ts, mk("BSB22 commitment + G", p8, vk, pub))
+			}
+		}
+		if inner.name == "mul" {
+			// key switching with a single registered key: only selector 0 names a key
+			for _, sel := range []int{0, 1, 5} {
+				sel := sel
+				ts = append(ts, triple{fmt.Sprintf("key switching: one registered key, selector %d", sel), func() (error, error) {
+					var nat error
+					if sel != 0 {
+						nat = fmt.Errorf("selector %d names no registered key", sel)
+					} else {
+						nat = plonk.Verify(proof, vk, pub, stdplonk.GetNativeVerifierOptions(outF, inF))
+					}
+					cvk, err := stdplonk.ValueOfVerifyingKey[sfr377, g1t, g2t](vk)
+					if err != nil {
+						return nat, err
+					}
+					cw, _ := stdplonk.ValueOfWitness[sfr377](pub)
+					cp, _ := stdplonk.ValueOfProof[sfr377, g1t, g2t](proof)
+					pvk := stdplonk.PlaceholderVerifyingKey[sfr377, g1t, g2t](ccs)
+					tmpl := &plSwitch{InnerWitness: stdplonk.PlaceholderWitness[sfr377](ccs), Proof: stdplonk.PlaceholderProof[sfr377, g1t, g2t](ccs),
+						Base: pvk.BaseVerifyingKey, Keys: []stdplonk.CircuitVerifyingKey[sfr377, g1t]{pvk.CircuitVerifyingKey}}
+					asg := &plSwitch{InnerWitness: cw, Proof: cp, Base: cvk.BaseVerifyingKey, Keys: []stdplonk.CircuitVerifyingKey[sfr377, g1t]{cvk.CircuitVerifyingKey}, Sel: sel}
+					return nat, test.IsSolved(tmpl, asg, outF)
+				}})
 			}
 		}
 		{
